@@ -131,7 +131,7 @@ inductive HelperKind where
   | ifH (positive : Bool) | each | withH | lookup | raw | log
   | eq | ne | gt | gte | lt | lte | andH | orH | notH | len
   -- defined by the harness, mirrored here
-  | mark (tag : Str) | probe | evalp | rcstate | vret
+  | mark (tag : Str) | probe | evalp | rcstate | vret | counter
   | macroH (sig : MacroSig)
 
 inductive DecoKind where
@@ -165,6 +165,7 @@ structure RC where
   indentBeforeWrite : Bool := false
   indentString : Option Str := none
   devTemplates : Option (List (Str × Tmpl)) := none
+  counter : Nat := 0                          -- invocations of the harness's `counter` helper
 
 /-- the writer: the write calls so far (newest first) and the fault index of C19 -/
 structure Out where
@@ -914,6 +915,10 @@ mutual
       | .rcstate => do
         let rc ← get
         write (rcStateLine rc)
+      | .counter => do
+        let rc ← get
+        modify (fun rc => { rc with counter := rc.counter + 1 })
+        write (natToStr rc.counter)
       | _ => pure ()
 
   /-- the iteration of `each` -/
